@@ -1,15 +1,99 @@
-import DilithiumVerif.Impl.Keccak
+import DilithiumVerif.Lemmas.Sponge
 /-
-  C12 — SHAKE-128/256 equal FIPS 202 for every input and every call pattern.
-  (first instalment: structural facts; the sponge theorems are added below as they are proved)
+  C12 — SHAKE-128 and SHAKE-256 equal FIPS 202 for every input and every call pattern.
+  Theorems about the sponge loops of the model (the repaired `keccak_squeeze`), generic in the permutation:
+  the result does not depend on how the input is split across absorb calls or the output across squeeze calls.
+  That the permutation and padding are FIPS 202's is validated on every run against hashlib (not proved here).
 -/
 namespace DV.C12
 open DV
 
-/-- rates as regenerated from the source are the FIPS 202 rates of SHAKE-128 / SHAKE-256 -/
+/-- rates as regenerated from the source are the FIPS 202 rates of SHAKE-128 / SHAKE-256 (multiples of 8) -/
 theorem rates : R128 = 168 ∧ R256 = 136 := by decide
-
-/-- the round-constant table has the 24 FIPS 202 entries (checked against the LFSR-generated values below) -/
 theorem rc_len : Gen.KECCAKF_ROUNDCONSTANTS.length = 24 := by decide
+
+/-- Absorb is split-independent: absorbing `a` and then `b` leaves exactly the state of absorbing `a ++ b`
+    in one call — for every permutation, every rate, every position carry and all lengths. -/
+theorem absorb_split (f : Lanes → Lanes) (r : Nat) (st : KeccakState) (a b : List Nat) (hp : st.pos < r) :
+    (keccak_absorb f r st a a.length >>= fun st' => keccak_absorb f r st' b b.length)
+      = keccak_absorb f r st (a ++ b) (a ++ b).length := by
+  rw [keccak_absorb_eq f r st a hp, keccak_absorb_eq f r st (a ++ b) hp]
+  simp only [ok_bind]
+  have hp' := absorbSpec_pos_lt f r a.length st.s st.pos a rfl hp
+  rw [keccak_absorb_eq f r _ b hp', absorbSpec_append f r a.length st.s st.pos a b rfl hp]
+
+/-- the same for the exposed SHAKE-256 / SHAKE-128 absorb functions -/
+theorem shake256_absorb_split (st : KeccakState) (a b : List Nat) (hp : st.pos < R256) :
+    (shake256_absorb st a a.length >>= fun st' => shake256_absorb st' b b.length)
+      = shake256_absorb st (a ++ b) (a ++ b).length :=
+  absorb_split keccakf R256 st a b hp
+theorem shake128_absorb_split (st : KeccakState) (a b : List Nat) (hp : st.pos < R128) :
+    (shake128_absorb st a a.length >>= fun st' => shake128_absorb st' b b.length)
+      = shake128_absorb st (a ++ b) (a ++ b).length :=
+  absorb_split keccakf R128 st a b hp
+
+/-- what `shake256_squeeze` returns, without fuel -/
+theorem shake256_squeeze_eq (n : Nat) (st : KeccakState) (hp : st.pos ≤ R256) :
+    shake256_squeeze n n st = .ok ((squeezeSpec keccakf R256 st.s st.pos n).1,
+      { s := (squeezeSpec keccakf R256 st.s st.pos n).2.1, pos := (squeezeSpec keccakf R256 st.s st.pos n).2.2 }) := by
+  unfold shake256_squeeze keccak_squeeze
+  simp only [Nat.le_refl, if_true, ok_bind]
+  rw [squeeze_loop_eq keccakf R256 (by decide) _ [] n st.s st.pos hp (by omega)]
+  simp only [List.nil_append]
+
+theorem squeezeSpec_pos_le (f : Lanes → Lanes) (r : Nat) (hr : 0 < r) : ∀ (n : Nat) (s : Lanes) (pos : Nat), pos ≤ r →
+    (squeezeSpec f r s pos n).2.2 ≤ r := by
+  intro n
+  induction n using Nat.strongRecOn with
+  | _ n ih =>
+    intro s pos hp
+    by_cases hn : n = 0
+    · subst hn; rw [squeezeSpec_zero]; exact hp
+    · rw [squeezeSpec_step f r s pos n (by omega)]
+      simp only
+      apply ih
+      · have : 0 < min (r - if pos = r then 0 else pos) n := by split <;> omega
+        omega
+      · split <;> omega
+
+/-- Squeeze is split-independent: one request of n + m bytes — however many rate blocks it crosses — returns
+    exactly the bytes of a request of n followed by a request of m, and leaves the same state. -/
+theorem shake256_squeeze_split (n m : Nat) (st : KeccakState) (hp : st.pos ≤ R256) :
+    shake256_squeeze (n + m) (n + m) st =
+      (shake256_squeeze n n st >>= fun r1 => shake256_squeeze m m r1.2 >>= fun r2 => .ok (r1.1 ++ r2.1, r2.2)) := by
+  rw [shake256_squeeze_eq (n + m) st hp, shake256_squeeze_eq n st hp]
+  simp only [ok_bind]
+  have hp' := squeezeSpec_pos_le keccakf R256 (by decide) n st.s st.pos hp
+  rw [shake256_squeeze_eq m _ hp']
+  simp only [ok_bind]
+  rw [squeezeSpec_split keccakf R256 (by decide) n m st.s st.pos hp]
+
+/-- `squeezeblocks` under its documented precondition (position at a block boundary) is the same stream:
+    n blocks = a squeeze of n·rate bytes -/
+theorem shake256_squeezeblocks_eq (n : Nat) (st : KeccakState) (hp : st.pos = R256) :
+    shake256_squeezeblocks (n * R256) n st = .ok ((squeezeSpec keccakf R256 st.s R256 (n * R256)).1,
+      { st with s := (squeezeSpec keccakf R256 st.s R256 (n * R256)).2.1 }) := by
+  unfold shake256_squeezeblocks keccak_squeezeblocks
+  have hc : n = 0 ∨ (n - 1) * R256 + 8 * (R256 / 8) ≤ n * R256 := by
+    by_cases h0 : n = 0
+    · exact Or.inl h0
+    · right
+      have e : 8 * (R256 / 8) = R256 := by decide
+      rw [e]
+      have : n = (n - 1) + 1 := by omega
+      conv => rhs; rw [this, Nat.succ_mul]
+      exact Nat.le_refl _
+  simp only [hc, if_true, ok_bind]
+  rw [squeezeblocks_loop_eq keccakf R256 (by decide) (by decide) n [] st.s]
+  simp only [List.nil_append]
+
+/-! non-vacuity / the defect that was repaired: with the index declared inside the block loop a 200-byte request
+    after absorbing "abc" returned `cf0ea610…`; the model (repaired code) returns FIPS 202's `48336660…` -/
+example : (do
+    let st ← shake256_absorb KeccakState.init [0x61, 0x62, 0x63] 3
+    let st ← shake256_finalize st
+    let (o, _) ← shake256_squeeze 200 200 st
+    .ok (o.take 4, (o.drop 196))) = (.ok ([0x48, 0x33, 0x66, 0x60], [0xf6, 0xbf, 0xe1, 0x19]) : Chk (List Nat × List Nat)) := by
+  decide +kernel
 
 end DV.C12
